@@ -146,12 +146,12 @@ let rec int64_of_pos (p : positive) : int64 = match p with
 let int64_of_z (z : z) : int64 = match z with Z0 -> 0L | Zpos p -> int64_of_pos p | Zneg p -> Int64.neg (int64_of_pos p)
 
 let show_err = function
-  | EDom -> "err:Dom"
-  | EInvalidType -> "err:InvalidType"
-  | EInvalidArgumentCount s -> "err:InvalidArgumentCount:" ^ enc s
-  | ENotFoundFunction s -> "err:NotFoundFunction:" ^ enc s
-  | ENotFoundNamespace s -> "err:NotFoundNamespace:" ^ enc s
-  | ENotFoundVariable s -> "err:NotFoundVariable:" ^ enc s
+  | XErrDom -> "err:Dom"
+  | XErrInvalidType -> "err:InvalidType"
+  | XErrInvalidArgumentCount s -> "err:InvalidArgumentCount:" ^ enc s
+  | XErrNotFoundFunction s -> "err:NotFoundFunction:" ^ enc s
+  | XErrNotFoundNamespace s -> "err:NotFoundNamespace:" ^ enc s
+  | XErrNotFoundVariable s -> "err:NotFoundVariable:" ^ enc s
 
 let show_value (raw : (string * string * string) array) (doc : xdoc) (v : xvalue) : string =
   match v with
